@@ -950,7 +950,10 @@ package bigbuff
 //@   requires wired : mutex != nil && b != nil && b.cond != nil
 //@   ensures reenabled [C04] : timer == nil && !broadcast
 //@   # a run skipped during the cooldown is made up for: the cleanup goroutine is woken
-//@   ensures rebroadcast [C04] : old(broadcast) ==> icalls("(*sync.Cond).Broadcast") == 1
+//@   ensures rebroadcast [C04,C12] : old(broadcast) ==> icalls("(*sync.Cond).Broadcast") == 1
+//@   # the timer goroutine never cleans by itself: the cleaner only runs in the cleanup goroutine, whose wait checks the
+//@   # buffer's context first (a closed Buffer keeps its contents)
+//@   ensures noclean [C04,C12] : icalls("(*Buffer).cleanupLogic") == 0
 //@   ensures quiet [C04] : !old(broadcast) ==> icalls("(*sync.Cond).Broadcast") == 0
 
 // ---------------------------------------------------------------------------------------------------
